@@ -166,6 +166,16 @@ def evaluate(prop, scns, variant, want_model=True):
                 problems.append(dict(kind='correspondence', key='correspondence', scn=s, text=d))
         if il and (nontriv(s, il) if nontriv else True):
             stats['nontrivial'].add(hashlib.sha256('\n'.join(s.lines).encode()).hexdigest())
+    # further instrumented runs of (a subset of) the same scenarios: sanitizers, valgrind, counting allocator
+    for v in getattr(prop, 'EXTRA_VARIANTS', []):
+        sel = [s for s in scns if prop.extra_select(s, v)]
+        if not sel:
+            continue
+        impl2 = common.run_impl(v, sel)
+        for s in sel:
+            for key, text in prop.oracle_variant(s, impl2.get(s.id) or [], v):
+                problems.append(dict(kind='oracle', key=key, scn=s, text=text, variant=v))
+        stats['extra_' + v] = len(sel)
     return problems, stats, impl
 
 
@@ -325,6 +335,7 @@ def main():
             ],
             theorems=pr['names'], failed_theorems=pr['failed'], print_assumptions=pr['assumptions'],
             evaluations=stats['evaluations'], distinct_nontrivial=len(stats['nontrivial']),
+            instrumented_runs={k[6:]: v for k, v in stats.items() if k.startswith('extra_')},
             rule=getattr(prop, 'RULE', 'scenarios generated by props/%s.py; non-trivial = the implementation produced a result and the scenario passes the property module\'s nontrivial() test; distinct by scenario text' % pid),
             samples=samples, distribution=dist,
             correspondence_disagreements=len(corr_fail), oracle_failures=len(oracle_fail),
